@@ -172,6 +172,12 @@ def observe(case, xs=None):
     for k in range(n + 3):
         t = obj.get_var_tuple_index(k)
         out["tup"].append(None if t is None else tuple(int(z) for z in t))
+    out["tup_fresh"] = None
+    if case.get("lookup_first"):
+        # the index-to-tuple lookup as the very first query on a fresh object of the same case
+        o2 = build(case)
+        tf = [o2.get_var_tuple_index(k) for k in range(2)]
+        out["tup_fresh"] = [None if t is None else tuple(int(z) for z in t) for t in tf]
     try:
         A, b, R, r_eq = obj.get_constraint_data()
         assert r_eq == 0
